@@ -86,21 +86,50 @@ func eachTerm(c *core.Ctx, r *core.Result, p plan, f func(t *tm.Term)) {
 		}
 		return done
 	}
+	// Order: the spaces every tier completes first (full depth <= 3, the
+	// core spaces up to depth 4, the hand-picked compositions, the quirk
+	// pass), then the deep spaces of the thorough tier, so that a soft
+	// deadline inside a deep space never costs the small ones.
+	type job struct {
+		core bool
+		d    int
+	}
+	var first, deep []job
 	for d := 1; d <= p.fullDepth; d++ {
-		if !run(tm.Full(d)) {
-			return
+		if d <= 3 {
+			first = append(first, job{false, d})
+		} else {
+			deep = append(deep, job{false, d})
 		}
 	}
-	inCore = true
-	coreFrom := p.fullDepth + 1
+	coreFrom := min(p.fullDepth, 3) + 1
 	if p.strCoreDepth > p.strDepth {
 		// the core spaces of small depth are visited again for their string variants
 		coreFrom = p.strDepth + 1
 	}
 	for d := coreFrom; d <= p.coreDepth; d++ {
-		if !run(tm.Core(d)) {
-			return
+		switch {
+		case d <= 4:
+			first = append(first, job{true, d}) // (part of the full space when fullDepth >= d: done first all the same)
+		case d > p.fullDepth:
+			deep = append(deep, job{true, d})
 		}
+	}
+	runJobs := func(js []job) bool {
+		for _, j := range js {
+			inCore = j.core
+			sp := tm.Full(j.d)
+			if j.core {
+				sp = tm.Core(j.d)
+			}
+			if !run(sp) {
+				return false
+			}
+		}
+		return true
+	}
+	if !runJobs(first) {
+		return
 	}
 	// hand-picked corner compositions
 	ex := tm.Extras()
@@ -121,11 +150,14 @@ func eachTerm(c *core.Ctx, r *core.Result, p plan, f func(t *tm.Term)) {
 	}
 	base += int64(len(ex))
 	// quirk pass (see tm.Op.QuirkOf)
-	for i, t := range tm.QuirkTermsFor(c.ID) {
+	qt := tm.QuirkTermsFor(c.ID)
+	for i, t := range qt {
 		if c.Mine(base + int64(i)) {
 			f(t)
 		}
 	}
+	base += int64(len(qt))
+	runJobs(deep)
 }
 
 func contains(l []string, s string) bool {
